@@ -404,6 +404,10 @@ func (g *FnGen) applyContract(fc *FuncContract, pc *PkgContracts, c *ssa.CallCom
 	}
 	if fc.Kind == "trusted" {
 		g.note("trusted contract: " + fc.Name)
+	} else if fc.Kind == "iface" {
+		g.note("interface contract assumed at call: " + fc.Name)
+	} else if pc != nil {
+		g.note("callee contract used: " + pc.PkgPath[strings.LastIndex(pc.PkgPath, "/")+1:] + "." + fc.Name)
 	}
 	result := g.resultVal(rname, res)
 	post := &Env{g: g, vars: map[string]Val{}, cur: g.cur, old: pre, pkg: cpkg, pcs: []*PkgContracts{pc, g.pc}}
